@@ -16,3 +16,43 @@ def verify_T(prop, only=None):
             if prop in c.props and (only is None or fn in only):
                 out += c.verify()
     return out
+
+
+def verify_F(prop):
+    """engine F obligations for the frame contracts that mention the property"""
+    from .. import frame
+    from ..contracts.frames import FRAMES
+    out = []
+    for mod, qual, modifies, fresh, props in FRAMES:
+        if prop not in props:
+            continue
+        t0 = time.time()
+        try:
+            obl, s = frame.check_frame(mod, qual, modifies, fresh)
+        except Exception as e:
+            out.append(Verdict('frame', 'F', 'undecided', f'analysis error: {type(e).__name__}: {e}', time.time() - t0, f'{mod}.{qual}', 'frame'))
+            continue
+        dt = (time.time() - t0) / max(1, len(obl))
+        for name, status, detail in obl:
+            out.append(Verdict(name, 'F', status, detail, dt, f'{mod}.{qual}', 'frame'))
+    return out
+
+
+def verify_Z(prop, tier='quick'):
+    try:
+        from .. import zobl
+    except ImportError:
+        return []
+    return zobl.verify(prop, tier)
+
+
+def verify_L(prop, tier='quick'):
+    try:
+        from .. import lemmas_t as lemmas
+    except ImportError:
+        return []
+    return lemmas.verify(prop, tier)
+
+
+def deductive_all(prop, tier='quick'):
+    return verify_T(prop) + verify_Z(prop, tier) + verify_F(prop) + verify_L(prop, tier)
